@@ -2,13 +2,13 @@ import os
 ID = 'C05'
 LEVEL = 'other'
 CONTRACT_MODULES = ['contracts.evals', 'contracts.forecasts']
-CONE = ['csep.utils.stats.poisson_joint_log_likelihood_ndarray', 'lemma:csep.core.forecasts.MarkedGriddedDataSet.marginals']
+CONE = ['csep.utils.stats.poisson_joint_log_likelihood_ndarray', 'csep.core.poisson_evaluations._simulate_catalog', 'lemma:csep.core.forecasts.MarkedGriddedDataSet.marginals']
 ORACLE_MODULES = ['rt.oracles_eval', 'rt.oracles_contracts']
 BOUNDED = os.path.exists(os.path.join(os.path.dirname(__file__), '..', 'rt', 'bounded_C05.py'))
 FLOAT_MODEL = 'R; loggamma/log uninterpreted'
 TRUSTED = ['numpy.sum / scipy.special.loggamma element-wise', 'pyvc engine, z3 5.1']
 ASSUMPTIONS = ['_poisson_likelihood_test (support restriction, normalisation, simulation loop) and the four public tests are NOT under proof in this round: bounded stand-in only (independent recomputation with scipy.stats.poisson.logpmf on directed and random forecasts)', 'the -inf clause is bounded only (model R has no infinities)']
-EXPLANATION = 'poisson_joint_log_likelihood_ndarray == sum(t) - sum(loggamma(w+1)) - n_fore; forecast marginals are the row / column sums of data (used by the S and M tests)'
+EXPLANATION = 'poisson_joint_log_likelihood_ndarray == sum(t) - sum(loggamma(w+1)) - n_fore; the simulated catalog every entry of the test distribution is computed from is the exact inverse-CDF placement, reset for every simulation (_simulate_catalog contract, shared with C06); forecast marginals are the row / column sums of data (used by the S and M tests)'
 TECHNIQUE = 'contracts on the real functions (formula level) + bounded run-time contract of the full tests'
 LEVEL_TEXT = 'other: the likelihood kernel and the marginals are proved; the statement about the observed statistic / simulated distribution of the L, CL, S, M tests is decided by the bounded run-time contract only'
 LEVEL_NOTE = 'only the kernel is proved; tests bounded; floats as reals'
